@@ -23,6 +23,7 @@ for d in sorted([x for x in os.listdir('/verif/seeded') if re.match(r'C\d+-\d+$'
     for a in also:
         if a not in caught: caught += ', ' + a
     note = m.get('strengthening', '') if m.get('first_missed') else ''
+    if m.get('out_of_scope'): note = 'NOT CLAIMED: ' + m['out_of_scope']
     if m.get('rebased'): note = (note + ' ' if note else '') + '(patch re-based over a later fix)'
     rows.append((d, m.get('round', 1), title[:150], caught, note))
 with open('/verif/seeded/INDEX.md', 'w') as f:
